@@ -58,7 +58,7 @@ def main():
                      "kind_free_text": "go/ssa (exported from /repo's working tree on every run) -> symbolic execution / weakest-precondition style VC generator with contracts, frames, loop invariants -> SMT (z3py 5.1.0 in-process, race of z3 4.8.12 / z3 5.1.0 / cvc5 on undecided queries) -> counterexample replay on the real code via go test -overlay"}],
         "checks": checks,
         "not_applicable": na,
-        "notes": "Contract-based deductive verification of the real code. See DESIGN.md. known_findings.json lists recorded and fixed defects.",
+        "notes": "Contract-based deductive verification of the real code. See DESIGN.md (section 0a first). known_findings.json lists recorded and fixed defects. Every check also discharges the callee contracts its own run used (engine/closure.py), so a verdict does not rest on another property's check.",
     }
     with open(os.path.join(ROOT, "MANIFEST.json"), "w") as f:
         json.dump(man, f, indent=1)
